@@ -272,6 +272,9 @@ try:
     allr = BL(be).rules
     out['bundled_comment'] = allr['comment_begin'][0][0].pattern
     out['bundled_raw'] = allr['raw_begin'][0][0].pattern
+    allt = BL(BE(trim_blocks=True)).rules
+    out['bundled_comment_trim'] = allt['comment_begin'][0][0].pattern
+    out['bundled_raw_trim'] = allt['raw_begin'][0][0].pattern
     out['bundled_comment_shape'] = [list(allr['comment_begin'][0][1]), allr['comment_begin'][0][2], len(allr['comment_begin'])]
     out['bundled_raw_shape'] = [list(allr['raw_begin'][0][1]), allr['raw_begin'][0][2], len(allr['raw_begin'])]
     out['bundled_defaults'] = [be.block_start_string, be.block_end_string, be.variable_start_string, be.variable_end_string,
@@ -537,6 +540,8 @@ def gen_jinjascan() -> typing.Tuple[bool, str]:
                  rules_def('stock31_root_rules', decompose_root(live['stock'])),
                  lazy_end_def('bundled_comment_end', live['bundled_comment']),
                  lazy_end_def('bundled_raw_end', live['bundled_raw']),
+                 lazy_end_def('bundled_comment_end_trim', live['bundled_comment_trim']),
+                 lazy_end_def('bundled_raw_end_trim', live['bundled_raw_trim']),
                  translate_lineprefix(gen.parse_repo(FILTERS)),
                  translate_autoindent(gen.parse_repo(PARSER)),
                  translate_extensions(gen.parse_repo(EXT))]
@@ -548,3 +553,121 @@ def gen_jinjascan() -> typing.Tuple[bool, str]:
 
 
 GENERATORS = {'jinjascan': gen_jinjascan}
+
+
+# =============================================================================================
+# 'jinjarules' -> Generated/Gen_JinjaRules.v : EVERY rule of EVERY lexer state, for a list of Environment option
+# combinations, of the bundled lexer and of the stock lexer (pattern text, token spec, state transition), plus the
+# parts (escaped delimiters, flags, compile_rules order) from which Gen/JinjaRules.v rebuilds the expected tables.
+# =============================================================================================
+OUT_RULES = os.path.join(gen.GEN_DIR, 'Gen_JinjaRules.v')
+
+ASP = dict(block_start_string='<%', block_end_string='%>', variable_start_string='${', variable_end_string='}',
+           comment_start_string='<!--', comment_end_string='-->')
+LS = dict(line_statement_prefix='%%', line_comment_prefix='##')
+COMBOS = [
+    dict(),
+    dict(lstrip_blocks=True),
+    dict(trim_blocks=True),
+    dict(lstrip_blocks=True, trim_blocks=True),
+    dict(LS),
+    dict(LS, lstrip_blocks=True, trim_blocks=True),
+    dict(ASP),
+    dict(ASP, lstrip_blocks=True, trim_blocks=True),
+]
+
+RULES_SNIPPET = r'''
+import hashlib, json, re, sys
+combos = json.loads(sys.argv[1])
+def tok(t):
+    if isinstance(t, str):
+        return t
+    if t.__class__.__name__ == 'Failure':
+        return 'Failure:' + t.message
+    return repr(t)
+def table(lexer):
+    out = []
+    for state, rules in lexer.rules.items():
+        rs = []
+        for r in rules:
+            pat = r[0].pattern
+            if len(pat) > 600:      # the Unicode identifier class of name_re
+                pat = 'sha256:' + hashlib.sha256(pat.encode('utf-8')).hexdigest()
+            spec = r[1]
+            if isinstance(spec, tuple):
+                spec = type(spec).__name__ + '(' + ','.join(tok(x) for x in spec) + ')'
+            else:
+                spec = tok(spec)
+            rs.append([pat, spec, 'None' if r[2] is None else str(r[2]), int(r[0].flags)])
+        out.append([str(state), rs])
+    return out
+res = []
+import nunavut.jinja.jinja2 as B
+from nunavut.jinja.jinja2 import lexer as BLX
+import jinja2 as S
+from jinja2 import lexer as SLX
+for kw in combos:
+    be, se = B.Environment(**kw), S.Environment(**kw)
+    e = re.escape
+    parts = dict(bs=e(be.block_start_string), be=e(be.block_end_string), vs=e(be.variable_start_string), ve=e(be.variable_end_string),
+                 cs=e(be.comment_start_string), ce=e(be.comment_end_string), lstrip=bool(be.lstrip_blocks), trim=bool(be.trim_blocks))
+    res.append(dict(opts=kw, parts=parts,
+                    order_b=[[str(n), r] for n, r in BLX.compile_rules(be)], order_s=[[str(n), r] for n, r in SLX.compile_rules(se)],
+                    bundled=table(BLX.Lexer(be)), stock=table(SLX.Lexer(se)), stock_version=S.__version__))
+json.dump(res, sys.stdout)
+'''
+
+
+def _coq_table(name: str, rows) -> str:
+    out = ['Definition %s : list (list (str * list (str * str * str))) :=\n [' % name]
+    combos = []
+    for tab in rows:
+        states = []
+        for state, rules in tab:
+            rs = ';\n      '.join('(%s, %s, %s)' % (_coq_str(p), _coq_str(t), _coq_str(n)) for p, t, n, _f in rules)
+            states.append('   (%s,\n     [%s])' % (_coq_str(state), rs))
+        combos.append('  [\n' + ';\n'.join(states) + '\n  ]')
+    return out[0] + '\n' + ';\n'.join(combos) + '\n ].\n'
+
+
+def gen_jinjarules() -> typing.Tuple[bool, str]:
+    head = (gen.HEADER % ('the live rule tables of %s and of the stock Jinja2 installed in /venv' % LEXER)
+            + 'From Verif Require Import JinjaRulesBase.\nOpen Scope N_scope.\n\n')
+    try:
+        env = dict(os.environ)
+        env['PYTHONPATH'] = os.path.join(gen.REPO, 'src')
+        env['PYTHONDONTWRITEBYTECODE'] = '1'
+        p = subprocess.run(['/venv/bin/python', '-c', RULES_SNIPPET, json.dumps(COMBOS)], env=env, stdout=subprocess.PIPE, stderr=subprocess.PIPE,
+                           timeout=120, text=True)
+        try:
+            res = json.loads(p.stdout)
+        except Exception:
+            raise Unsupported('could not obtain the live rule tables: %s' % p.stderr[-400:])
+        parts = []
+        combos = []
+        for r in res:
+            for tab in (r['bundled'], r['stock']):
+                for _state, rules in tab:
+                    for _p, _t, _n, flags in rules:
+                        if (flags & (re.I | re.X)) and _t not in ('float', 'integer'):
+                            raise Unsupported('unexpected regex flags %d on rule %r' % (flags, _p))
+            pa = r['parts']
+
+            def order(o):
+                return '[%s]' % '; '.join('(%s, %s)' % (_coq_str(n), _coq_str(x)) for n, x in o)
+            combos.append('  {| c_bs := %s; c_be := %s; c_vs := %s; c_ve := %s; c_cs := %s; c_ce := %s;\n     c_lstrip := %s; c_trim := %s;\n'
+                          '     c_order_bundled := %s;\n     c_order_stock := %s |}'
+                          % (_coq_str(pa['bs']), _coq_str(pa['be']), _coq_str(pa['vs']), _coq_str(pa['ve']), _coq_str(pa['cs']), _coq_str(pa['ce']),
+                             'true' if pa['lstrip'] else 'false', 'true' if pa['trim'] else 'false', order(r['order_b']), order(r['order_s'])))
+        parts.append('(* option combinations: %s *)\n' % json.dumps(COMBOS).replace('*)', '* )').replace('(*', '( *'))
+        parts.append('Definition lexer_combos : list combo :=\n [\n%s\n ].\n' % ';\n'.join(combos))
+        parts.append(_coq_table('bundled_lexer_tables', [r['bundled'] for r in res]))
+        parts.append(_coq_table('stock_lexer_tables', [r['stock'] for r in res]))
+    except (Unsupported, OSError, ValueError, KeyError, TypeError) as ex:
+        gen.write_if_changed(OUT_RULES, head + '(* translator failed closed: %s *)\n' % str(ex).replace('*)', '* )').replace('(*', '( *'))
+        return False, 'C19 rule-table translator failed closed: %s' % ex
+    gen.write_if_changed(OUT_RULES, head + '\n'.join(parts))
+    return True, 'ok'
+
+
+GENERATORS['jinjarules'] = gen_jinjarules
